@@ -3,6 +3,7 @@ package main
 import (
 	"fmt"
 	"go/ast"
+	"go/constant"
 	"go/token"
 	"go/types"
 	"sort"
@@ -29,7 +30,7 @@ func ruleDeleteGuarded(c *Ctx) {
 	remove := callPred(s, "os.Remove")
 	// variable bound to NeedsReplay()'s first result
 	var nr types.Object
-	walkAll(s.Body, func(n ast.Node) bool {
+	s.walk(func(n ast.Node) bool {
 		if as, ok := n.(*ast.AssignStmt); ok && len(as.Rhs) == 1 {
 			if call, ok := unparen(as.Rhs[0]).(*ast.CallExpr); ok && CalleeName(s.Info, call) == fnNeedsReplay && len(as.Lhs) >= 1 {
 				nr = identObj(s.Info, as.Lhs[0])
@@ -37,6 +38,7 @@ func ruleDeleteGuarded(c *Ctx) {
 		}
 		return true
 	})
+
 	if nr == nil {
 		c.Violate(rule, s.Name, "needs-replay-consulted", c.P.Pos(s.Body.Pos()), "Delete does not bind the result of NeedsReplay()", nil)
 	} else {
@@ -62,55 +64,46 @@ func ruleDeleteGuarded(c *Ctx) {
 		c.Floor(rule, cl.Name, "Delete call sites", r.TargetSites, 1)
 		c.reportHits(rule, cl, "delete-only-after-successful-replay", r, "Delete is dominated by the nil-error edge of Replay", "a WAL file is deleted although its replay failed or did not run")
 	}
-	// NeedsReplay is true exactly for NOTREPLAYED and REPLAYINPROCESS
+	// NeedsReplay answers true exactly for NOTREPLAYED and REPLAYINPROCESS: the function is
+	// evaluated once per value of the replay-state enumeration (edges whose condition is false
+	// under that value are pruned; if-chains, ||-conditions and switches are all the same to
+	// this), and the constant answers of the reachable nil-error returns are collected.
 	if nrS := c.S(rule, fnNeedsReplay); nrS != nil {
-		got := map[string]bool{}
-		walkAll(nrS.Body, func(n ast.Node) bool {
-			if b, ok := isCompareNode(n, token.EQL); ok {
-				if fieldKey(nrS.Info, b.X) == "executor.WALFileType.ReplayState" {
-					got[objKey(nrS.Info, b.Y)] = true
-				}
-				if fieldKey(nrS.Info, b.Y) == "executor.WALFileType.ReplayState" {
-					got[objKey(nrS.Info, b.X)] = true
-				}
-			}
-			return true
-		})
-		want := []string{"executor/wal.NOTREPLAYED", "executor/wal.REPLAYINPROCESS"}
-		ok := len(got) == 2 && got[want[0]] && got[want[1]]
-		c.Check(ok, rule, nrS.Name, "needs-replay-states", c.P.Pos(nrS.Body.Pos()), fmt.Sprintf("NeedsReplay tests ReplayState against %v (want exactly %v)", sortedKeys(got), want))
-		// `true` is returned only on the edge where one of those comparisons holds
-		retTrue := func(sub, top ast.Node) bool {
-			r, ok := sub.(*ast.ReturnStmt)
-			if !ok || len(r.Results) < 1 {
-				return false
-			}
-			id, ok := unparen(r.Results[0]).(*ast.Ident)
-			return ok && id.Name == "true"
+		const fld = "executor.WALFileType.ReplayState"
+		enum := c.P.enumConsts("executor/wal", "ReplayStateEnum")
+		if len(enum) < 3 {
+			c.Undecided(rule, nrS.Name, "needs-replay-states", "enumeration executor/wal.ReplayStateEnum not found")
 		}
-		retFalseNil := func(sub, top ast.Node) bool {
-			r, ok := sub.(*ast.ReturnStmt)
-			if !ok || len(r.Results) != 2 {
-				return false
-			}
-			id, ok := unparen(r.Results[0]).(*ast.Ident)
-			return ok && id.Name == "false" && isNilIdent(nrS.Info, r.Results[1])
-		}
-		stateEdge := func(val bool) func(f []Fact) bool {
-			return func(f []Fact) bool {
-				for _, x := range f {
-					if x.Val == val && mentionsField(nrS.Info, x.Expr, "executor.WALFileType.ReplayState") {
-						return true
-					}
+		want := map[string]bool{"executor/wal.NOTREPLAYED": true, "executor/wal.REPLAYINPROCESS": true}
+		for _, name := range sortedConstKeys(enum) {
+			cv := enum[name].Val()
+			atom := func(e ast.Expr) (constant.Value, bool) {
+				if fieldKey(nrS.Info, e) == fld {
+					return cv, true
 				}
-				return false
+				return nil, false
 			}
+			answers := map[string]bool{}
+			r := nrS.Run(Query{
+				WholeFacts: true,
+				Exempt:     func(f []Fact) bool { return infeasibleUnder(nrS.Info, f, atom) },
+				Target: func(sub, top ast.Node) bool {
+					rs, ok := sub.(*ast.ReturnStmt)
+					return ok && len(rs.Results) == 2 && isNilIdent(nrS.Info, rs.Results[1])
+				},
+			})
+			for _, h := range r.Hits {
+				if v, known := evalBool(nrS.Info, h.Node.(*ast.ReturnStmt).Results[0], atom); known {
+					answers[fmt.Sprint(v)] = true
+				} else {
+					answers["?"] = true
+				}
+			}
+			exp := fmt.Sprint(want[name])
+			ok := len(answers) == 1 && answers[exp]
+			c.Check(ok, rule, nrS.Name, "needs-replay-answer:"+strings.TrimPrefix(name, "executor/wal."), c.P.Pos(nrS.Body.Pos()),
+				fmt.Sprintf("for replay state %s NeedsReplay can answer %v with a nil error (want only %s): a file whose replay did not start or did not finish must be replayed, a replayed one must not", name, sortedKeys(answers), exp))
 		}
-		// cond is `a || b`: true edge carries no certain fact, false edge carries both negations.
-		// "false, nil" must be reachable only through the false edge of the state test:
-		r := nrS.Run(Query{Target: retFalseNil, Exempt: stateEdge(false)})
-		c.reportHits(rule, nrS, "not-needed-only-when-state-differs", r, "`false, nil` is returned only when ReplayState is neither NOTREPLAYED nor REPLAYINPROCESS", "NeedsReplay can answer false for a file that was not (completely) replayed")
-		_ = retTrue
 	}
 }
 
@@ -180,7 +173,7 @@ func ruleCleanupGuards(c *Ctx) {
 			arg := call.Args[0]
 			var src ast.Expr = arg
 			if o := identObj(g.Info, arg); o != nil {
-				walkAll(g.Body, func(m ast.Node) bool {
+				g.walk(func(m ast.Node) bool {
 					if as, isAs := m.(*ast.AssignStmt); isAs {
 						for i, l := range as.Lhs {
 							if identObj(g.Info, l) == o && i < len(as.Rhs) {
@@ -190,13 +183,14 @@ func ruleCleanupGuards(c *Ctx) {
 					}
 					return true
 				})
+
 			}
 			if nc, isCall := unparen(src).(*ast.CallExpr); isCall && CalleeName(g.Info, nc) == "(*os.File).Name" && recvField(g.Info, nc) == fldFilePtr {
 				// receiver object must be the result of NewWALFile
 				if sel, isSel := unparen(nc.Fun).(*ast.SelectorExpr); isSel {
 					if inner, isSel2 := unparen(sel.X).(*ast.SelectorExpr); isSel2 {
 						wo := identObj(g.Info, inner.X)
-						walkAll(g.Body, func(m ast.Node) bool {
+						g.walk(func(m ast.Node) bool {
 							if as, isAs := m.(*ast.AssignStmt); isAs && len(as.Rhs) == 1 {
 								if cx, isC := unparen(as.Rhs[0]).(*ast.CallExpr); isC && CalleeName(g.Info, cx) == "executor.NewWALFile" && len(as.Lhs) > 0 && identObj(g.Info, as.Lhs[0]) == wo && wo != nil {
 									ok = true
@@ -204,6 +198,7 @@ func ruleCleanupGuards(c *Ctx) {
 							}
 							return true
 						})
+
 					}
 				}
 			}
@@ -431,6 +426,7 @@ func ruleExitAfterShutdown(c *Ctx) {
 		}
 		return true
 	})
+
 	_ = info
 	c.Floor(rule, fn.Key, "scopes that exit the process", n, 1)
 	// os.Exit call sites in the server packages
@@ -444,6 +440,7 @@ func ruleExitAfterShutdown(c *Ctx) {
 			}
 			return true
 		})
+
 	}
 }
 
@@ -481,7 +478,7 @@ func ruleCheckpointPrunesReplay(c *Ctx) {
 		return sawCk && sawCC
 	}
 	state := map[types.Object]string{}
-	walkAll(s.Body, func(n ast.Node) bool {
+	s.walk(func(n ast.Node) bool {
 		switch x := n.(type) {
 		case *ast.CallExpr:
 			name := CalleeName(s.Info, x)
@@ -506,6 +503,7 @@ func ruleCheckpointPrunesReplay(c *Ctx) {
 		}
 		return true
 	})
+
 	if len(state) == 0 {
 		c.Violate(rule, s.Name, "checkpoint-updates-state", c.P.Pos(s.Body.Pos()), "no state is updated under the CHECKPOINT/COMMITCOMPLETE case of the first pass: checkpoint records cannot influence replay", nil)
 		return
@@ -516,7 +514,7 @@ func ruleCheckpointPrunesReplay(c *Ctx) {
 	// a prune of "everything seen so far" drops TGs that follow checkpoint records appended by an
 	// interrupted replay.
 	ckIDs := map[types.Object]bool{}
-	walkAll(s.Body, func(n ast.Node) bool {
+	s.walk(func(n ast.Node) bool {
 		if as, ok := n.(*ast.AssignStmt); ok && len(as.Rhs) == 1 && len(as.Lhs) >= 1 {
 			if call, ok := unparen(as.Rhs[0]).(*ast.CallExpr); ok && CalleeName(s.Info, call) == "(*executor.WALFileType).readTransactionInfo" {
 				if o := identObj(s.Info, as.Lhs[0]); o != nil {
@@ -526,8 +524,9 @@ func ruleCheckpointPrunesReplay(c *Ctx) {
 		}
 		return true
 	})
+
 	// values copied from the checkpoint id under the checkpoint case (e.g. a running maximum)
-	walkAll(s.Body, func(n ast.Node) bool {
+	s.walk(func(n ast.Node) bool {
 		if as, ok := n.(*ast.AssignStmt); ok && underCheckpointCase(as) {
 			for i, l := range as.Lhs {
 				if o := identObj(s.Info, l); o != nil && i < len(as.Rhs) {
@@ -541,9 +540,10 @@ func ruleCheckpointPrunesReplay(c *Ctx) {
 		}
 		return true
 	})
+
 	ordered := 0
 	var ordPos token.Pos
-	walkAll(s.Body, func(n ast.Node) bool {
+	s.walk(func(n ast.Node) bool {
 		b, ok := isCompareNode(n, token.LEQ, token.LSS, token.GEQ, token.GTR)
 		if !ok {
 			return true
@@ -563,6 +563,7 @@ func ruleCheckpointPrunesReplay(c *Ctx) {
 		}
 		return true
 	})
+
 	if len(ckIDs) == 0 {
 		c.Undecided(rule, s.Name, "checkpoint-id-variable", "no variable bound to readTransactionInfo()'s transaction id found in Replay")
 	} else if ordered == 0 {
@@ -632,7 +633,7 @@ func ruleCheckpointPrunesReplay(c *Ctx) {
 					return false
 				}
 				// follow local definitions of o
-				walkAll(s.Body, func(d ast.Node) bool {
+				s.walk(func(d ast.Node) bool {
 					switch y := d.(type) {
 					case *ast.AssignStmt:
 						for i, l := range y.Lhs {
@@ -651,6 +652,7 @@ func ruleCheckpointPrunesReplay(c *Ctx) {
 					}
 					return !dep
 				})
+
 				return !dep
 			})
 		}
